@@ -146,9 +146,10 @@ FORMULAS = [
     '\\frac{A}{B}', '\\frac AB', '\\frac A{B+C}', '\\frac A2', '\\frac{A}{\\frac{B}{C}}', 'A^{\\frac B2}', '\\sqrt{A}', '\\sqrt A', '\\sqrt[3]{A}',
     '\\mathcal A', '\\mathbf{AB}', '\\mbox{A B}', '\\textrm{A}', '\\left(A\\right)', 'A<B', 'A>B', 'A\\le B', '\\sum_{A=1}^{B}C',
     'A^\\pi B', '\\frac\\alpha\\beta A', '\\sqrt[A]\\pi B', '\\left\\langle A\\right\\rangle B', 'A_\\alpha\\beta', '\\mathcal\\alpha A',
+    "A'", "A''+B'", "A'^B", 'A--B', "{A'}", "{A}'_{B''}",
     'A_\\ua', 'A^\\uR', '\\frac\\ua\\uh', '\\sqrt\\uh', '\\uR^A', 'A^{\\uR}', '\\ua A',
 ]
-ENVS = [('$', '$'), ('\\(', '\\)'), ('\\[', '\\]'), ('\\begin{equation}', '\\end{equation}')]
+ENVS = [('$', '$'), ('\\(', '\\)'), ('\\[', '\\]'), ('\\begin{equation}', '\\end{equation}'), ('\\begin{eqnarray}', '\\end{eqnarray}')]
 EXPAND = {'\\ua': '\\alpha ', '\\uR': '\\mathbb{R}', '\\uh': '\\frac12'}
 
 
@@ -198,7 +199,7 @@ def h_math(e, lo, hi, env):
     doc, out = _parse(e, src)
     if out is None:
         return
-    name = {0: 'math', 1: 'math', 2: 'displaymath', 3: 'equation'}[env]
+    name = {0: 'math', 1: 'math', 2: 'displaymath', 3: 'equation', 4: 'eqnarray'}[env]
     ms = out.getElementsByTagName(name)
     e.check(len(ms) == 1, '<%s> nodes: %d (formula %s)' % (name, len(ms), f), 'math-structure')
     if len(ms) != 1:
@@ -270,7 +271,7 @@ def jobs(tier, seed):
     for L in (2, 3):
         J.append(dict(harness='h_verbatim', params=dict(pre='', nsym_before=L, nsym_after=0, indoc=True), label='verbatim free L=%d in a document' % L, no_twin=True))
     chunk = 8
-    for env in range(4):
+    for env in range(5):
         for lo in range(0, len(FORMULAS), chunk):
             if q and env > 0 and ((lo // chunk) + env + seed) % 2:
                 continue
